@@ -37,7 +37,7 @@ ASSUMPTIONS = [
     "crash model: completed operations are durable, a file's content is a prefix of what was written, no reordering by the page cache, no torn directory updates (a real power loss can do worse)",
     "all writes of the tool go through builtins.open / os.* (checked by the self-check on every world)",
 ]
-BUDGET = {"quick": (24, 4), "thorough": (700, 16)}
+BUDGET = {"quick": (24, 4), "thorough": (2800, 16)}
 REQUIRED = ["crash_in_write", "crash_between_child_and_parent", "prior_generations>=2", "first_generation", "crash_points"]
 FROZEN = "2022-03-04 05:06:07"
 LATER = "2022-03-04 06:06:07"
